@@ -35,9 +35,12 @@ It(t, m, ns) == [type |-> t, mode |-> m, names |-> ns]
 V_all == It("value", "all", <<>>)        V_inX == It("value", "include", <<NX>>)    V_exX == It("value", "exclude", <<NX>>)
 W_all == It("wildcard", "all", <<>>)     W_inY == It("wildcard", "include", <<NY>>)  W_inZ == It("wildcard", "include", <<NZ>>)
 Q_all == It("qexpr", "all", <<>>)        Q_inX == It("qexpr", "include", <<NX>>)
+\* an EMPTY include list handles nothing (an empty exclude list excludes nothing)
+Q_in0 == It("qexpr", "include", <<>>)    V_in0 == It("value", "include", <<>>)       W_ex0 == It("wildcard", "exclude", <<>>)
 Pipelines == {<<>>, <<V_all>>, <<V_inX>>, <<V_exX>>, <<W_all>>, <<W_inY>>, <<W_inZ>>, <<Q_all>>, <<Q_inX>>,
               <<V_inX, W_all>>, <<V_exX, V_inX>>, <<W_inZ, V_all>>, <<V_all, W_all>>, <<Q_inX, V_all>>,
-              <<V_inX, Q_all>>, <<W_inY, V_exX>>, <<V_exX, W_inZ>>}
+              <<V_inX, Q_all>>, <<W_inY, V_exX>>, <<V_exX, W_inZ>>,
+              <<Q_in0>>, <<Q_in0, V_all>>, <<V_in0>>, <<V_in0, W_all>>, <<W_ex0>>}
 S1(c) == SS(<<c>>)
 Tables == {<<(<<NX, <<S1(112), S1(113)>>>>), (<<NY, <<S1(114)>>>>)>>,                 \* x: [p, q]  y: [r]
            <<(<<NX, <<SS(<<112, 42>>)>>>>), (<<NY, <<SN(1, 1)>>>>)>>,                \* x: ["p*"]  y: [1]
